@@ -19,6 +19,7 @@ Factories: sim.install_factories() replaces prudp.connect_transport_socket / pru
 prudp.serve_transport_socket so that prudp.connect/serve, rmc.connect/serve, backend.connect work unchanged.
 """
 import os
+import math
 import asyncio, contextlib, heapq, random, types
 
 import anyio
@@ -54,6 +55,12 @@ class VLoop(asyncio.SelectorEventLoop):
             when = sched[0]._when
             if when > self._vtime:
                 self._vtime = when
+            # asyncio fires the timers with `when < time() + _clock_resolution` (1 ns): beyond 2^24 virtual seconds (194 days) the
+            # nanosecond is lost in rounding, the due timer never fires and the loop spins for ever - keep the resolution above one ulp
+            # (changes nothing below 2^24 s; found 2026-09-30: C11 thorough, sessions with two requests that run into the 10^7 s budget)
+            ulp = math.ulp(self._vtime)
+            if ulp >= 1e-9:
+                self._clock_resolution = 2 * ulp
         elif not self._ready and not sched:
             if self.idle_hook is not None:
                 self.idle_hook()
